@@ -80,6 +80,9 @@ func corr(o Opts) {
 		}
 		alias := s.Ins.C == s.Ins.A || (arity(s.Op) == 2 && s.Ins.C == s.Ins.B) ||
 			(len(s.Ins.T) > 0 && (s.Ins.T[0] == s.Ins.A || (arity(s.Op) == 2 && s.Ins.T[0] == s.Ins.B)))
+		if isRed(s.Op) {
+			alias = s.Pat != "r=none"
+		}
 		w.Add(coqCase(c), corpusLine{Scen: s}, s.key(), alias || c.Kind != 0)
 		w.Count("op:" + s.Op)
 		w.Count("pattern:" + s.Pat)
@@ -143,7 +146,15 @@ func corr(o Opts) {
 	for _, i := range pick {
 		emit(&all[i], "sampled")
 	}
-	w.Extra["scenarios_total"] = len(all)
+	// reductions with the receiver / a scratch argument among the vector elements (all of them: 7 ops x patterns x orders x kinds)
+	reds := redScenarios(o.Seed)
+	for i := range reds {
+		if !full && reds[i].Kind == K32 && i%2 == 1 {
+			continue
+		}
+		emit(&reds[i], "reduction")
+	}
+	w.Extra["scenarios_total"] = len(all) + len(reds)
 	if err := w.Flush(); err != nil {
 		Die("%v", err)
 	}
@@ -209,6 +220,13 @@ func hunt(o Opts) {
 		if !strings.HasPrefix(site, "no-alias:") {
 			out.Aliased++
 		}
+		if tmpAlias {
+			if s.tmpExpect() {
+				site += "|expected-safe"
+			} else {
+				site += "|expected-unsafe"
+			}
+		}
 		st := out.BySite[site]
 		st[0]++
 		if !same {
@@ -220,11 +238,43 @@ func hunt(o Opts) {
 		}
 		if tmpAlias {
 			out.TmpUnsafe[site]++
-			continue
+			if !s.tmpExpect() { // characterised: unsafe class
+				continue
+			}
+			site = "tmp-alias-characterised-safe:" + s.Op
 		}
 		add(HuntHit{Site: site, Scen: s, Failure: fmt.Sprintf("%s with %s (x: order %d N %d, y: order %d N %d, kind %d): aliased call leaves %s, fresh receiver holds %s",
 			s.Op, s.Pat, s.Regs[rX].Order, s.Regs[rX].N, s.Regs[rY].Order, s.Regs[rY].N, s.Kind, regStr(al, ka), regStr(fr, kf)),
 			Aliased: regStr(al, ka), Fresh: regStr(fr, kf)})
+	}
+	// reductions: receiver / scratch argument among the elements
+	reds := redScenarios(o.Seed)
+	for i := range reds {
+		s := &reds[i]
+		site := s.redSite()
+		same, al, fr, ka, kf := redAliasedVsFresh(s)
+		if ka == 3 || kf == 3 {
+			continue
+		}
+		out.Points++
+		if !strings.HasPrefix(site, "no-alias:") {
+			out.Aliased++
+		}
+		st := out.BySite[site]
+		st[0]++
+		if !same {
+			st[1]++
+		}
+		out.BySite[site] = st
+		if same {
+			continue
+		}
+		if strings.HasPrefix(site, "tmp-alias:") {
+			out.TmpUnsafe[site]++
+			continue
+		}
+		add(HuntHit{Site: site, Scen: s, Failure: fmt.Sprintf("%s with the receiver among the elements (%s, element order %d, kind %d): aliased call leaves %s, fresh receiver holds %s",
+			s.Op, s.Pat, s.Regs[rE0].Order, s.Kind, regStr(al, ka), regStr(fr, kf)), Aliased: regStr(al, ka), Fresh: regStr(fr, kf)})
 	}
 	// matrices / vectors: random views, many more than the correspondence
 	mr := NewRng(o.Seed + 909)
@@ -352,7 +402,11 @@ func replay(o Opts) {
 		fail := ""
 		if rp.Hunt.Scen != nil {
 			fixScen(rp.Hunt.Scen)
-			same, al, fr, ka, kf := aliasedVsFresh(rp.Hunt.Scen)
+			avf := aliasedVsFresh
+			if isRed(rp.Hunt.Scen.Op) {
+				avf = redAliasedVsFresh
+			}
+			same, al, fr, ka, kf := avf(rp.Hunt.Scen)
 			still = !same
 			fail = fmt.Sprintf("aliased %s, fresh %s", regStr(al, ka), regStr(fr, kf))
 		}
